@@ -353,7 +353,16 @@ func translate(repo string) (*transOut, error) {
 	exe, _ := os.Executable()
 	bin := filepath.Join(filepath.Dir(exe), "adapterir")
 	if _, err := os.Stat(bin); err != nil {
-		root := filepath.Dir(filepath.Dir(filepath.Dir(exe)))
+		// the framework root: VERIF_ROOT, else the nearest ancestor of the binary holding translator/go.mod
+		root := os.Getenv("VERIF_ROOT")
+		for d := filepath.Dir(exe); root == "" && d != "/" && d != "."; d = filepath.Dir(d) {
+			if _, err := os.Stat(filepath.Join(d, "translator", "go.mod")); err == nil {
+				root = d
+			}
+		}
+		if err := os.MkdirAll(filepath.Dir(bin), 0o755); err != nil {
+			return nil, err
+		}
 		cmd := exec.Command("go", "build", "-o", bin, "./adapterir")
 		cmd.Dir = filepath.Join(root, "translator")
 		if out, err := cmd.CombinedOutput(); err != nil {
